@@ -83,11 +83,13 @@ def gen_history(rng, n_events):
                     evs = [{"op": "setattr", "mod": v["module"], "name": v["name"], "value": v["value"]}]
                     d = "rebind variable %s" % v["name"]
             elif kind == "mutate-var":
-                vs = [v for v in spec["nodes"] if v["kind"] == "v" and v["vkind"] in ("list", "dict")]
+                vs = [v for v in spec["nodes"] if v["kind"] == "v" and v["vkind"] in ("list", "dict", "tuplist")]
                 if vs:
                     v = rng.choice(vs)
                     k = rng.randint(1, 9)
-                    if v["vkind"] == "list":
+                    if v["vkind"] == "tuplist":
+                        v["value"] = [v["value"][0], v["value"][1] + [k]]
+                    elif v["vkind"] == "list":
                         v["value"] = v["value"] + [k]
                     else:
                         v["value"] = dict(v["value"], k=k + 100)
@@ -183,8 +185,10 @@ def builtin_history():
                 "sset": None, "pair": None, "nested": None, "explicit": None, "hidden": None, "shadow": None, "refs": [list(r) for r in refs]}
     spec = {"pkg": "vpk", "nodes": [{"name": "round", "kind": "u", "module": "a"}, {"name": "divmod", "kind": "u", "module": "a"},
                                     {"name": "G0", "kind": "v", "module": "a", "vkind": "int", "value": 1},
-                                    fn("h0", "p", "a", 3, [("divmod", "dead")]),
-                                    fn("m0", "m", "a", 10, [("round", "dead"), ("G0", "bare")]),
+                                    {"name": "G1", "kind": "v", "module": "a", "vkind": "tuplist", "value": [3, [1, 2]]},
+                                    {"name": "G2", "kind": "v", "module": "b", "vkind": "dict", "value": {"k": 4}},
+                                    fn("h0", "p", "a", 3, [("divmod", "dead"), ("G2", "attr")]),
+                                    fn("m0", "m", "a", 10, [("round", "dead"), ("G0", "bare"), ("G1", "bare")]),
                                     fn("m1", "m", "a", 20, [("h0", "bare")]),
                                     fn("m2", "m", "b", 30, [])]}
     spec0 = copy.deepcopy(spec)
@@ -196,6 +200,10 @@ def builtin_history():
         specs.append((copy.deepcopy(spec), {}, q))
         descs.append(d)
     step([], "rebind variable G0 (no change, first query)", ["m0", "m1"])
+    vprog.node(spec, "G1")["value"] = [3, [1, 2, 9]]
+    step([{"op": "mutate", "mod": "a", "name": "G1", "value": 9}], "mutate variable G1 in place (a list inside a tuple)", ["m0"])
+    vprog.node(spec, "G2")["value"] = {"k": 104}
+    step([{"op": "mutate", "mod": "b", "name": "G2", "value": 104}], "mutate variable G2 in place (dict read by a helper)", ["m1", "m0"])
     vprog.node(spec, "round").update({"kind": "v", "vkind": "int", "value": 7})
     step([{"op": "setattr", "mod": "a", "name": "round", "value": 7}], "define the previously undefined name round (a builtin name) as a variable", ["m0", "m1"])
     h = fn("divmod", "p", "a", 9, [])
